@@ -261,8 +261,8 @@ def gen_refine_case(rng: random.Random, k: int):
     drop = [rng.randrange(n)] if rng.random() < 0.4 else []
     np_, pattern = CONFIGS_REFINE[k % len(CONFIGS_REFINE)]
     return {"call": "refine_droplets", "field": spec, "kwargs": kwargs, "drop": drop,
-            "candidate_kind": rng.choice(["located", "located", "perturbed", "diffuse", "diffuse_unset"]),
-            "num_processes": np_, "delays": pattern}
+            "candidate_kind": rng.choice(["located", "located", "perturbed", "diffuse", "diffuse_unset", "perturbed2d"]),
+            "container": rng.choice(["list", "emulsion"]), "num_processes": np_, "delays": pattern}
 
 
 def candidates_of(case, field):
@@ -282,7 +282,33 @@ def candidates_of(case, field):
         cands = [DiffuseDroplet(c.position, c.radius, 1.0) for c in cands]
     elif kind == "diffuse_unset":  # interface width not set: refine_droplet starts from the grid spacing
         cands = [DiffuseDroplet(c.position, c.radius) for c in cands]
+    elif kind == "perturbed2d":
+        from droplets.droplets import PerturbedDroplet2D
+        cands = [PerturbedDroplet2D(c.position, c.radius, 1.0, [0.0, 0.0]) for c in cands]
+    if "take" in case:  # only the first k candidates (edge cases: 0, 1, 2 tasks)
+        cands = cands[:case["take"]]
     return cands
+
+
+def container_of(case, cands):
+    """What the caller hands to refine_droplets: a plain list or the caller's Emulsion (holding these objects)."""
+    if case.get("container") == "emulsion" and cands:
+        from droplets import Emulsion
+        return Emulsion(cands, copy=False)
+    return cands
+
+
+def refine_call(ia, field, case, np_, kw):
+    """One call of refine_droplets on freshly built candidates: (canonical results, caller-visible state of the
+    candidates afterwards: changed? per candidate, result-aliases-a-candidate? per result)."""
+    cands = container_of(case, candidates_of(case, field))
+    before = canon_droplets(cands)
+    res = ia.refine_droplets(field, cands, num_processes=np_, **kw)
+    after = canon_droplets(cands)
+    state = {"changed": [a != b for a, b in zip(before, after)], "after": after, "before": before,
+             "aliased": [any(r is c for c in cands) for r in res if r is not None],
+             "length": (len(before), len(after))}
+    return canon_droplets(res), state
 
 
 def run_refine_case(case, log=None, unit=0.12):
@@ -302,7 +328,7 @@ def run_refine_case(case, log=None, unit=0.12):
             # serial branch but not those of the pool, whose workers receive pickled copies)
             tol = case["kwargs"].get("tolerance")
             kw = fresh(case["kwargs"])
-            ser1 = canon_droplets(ia.refine_droplets(field, candidates_of(case, field), num_processes=1, **kw))
+            ser1, out["candidates_serial"] = refine_call(ia, field, case, 1, kw)
             out["mutation_serial"] = mutation_of(case["kwargs"], kw, tol)
             # ... once more with the SAME (possibly modified) dict object, and once more with a fresh one
             ser3 = canon_droplets(ia.refine_droplets(field, candidates_of(case, field), num_processes=1, **kw))
@@ -314,8 +340,8 @@ def run_refine_case(case, log=None, unit=0.12):
         with patched(refine_keys=keys, delays=delays, drop=drop, log=log) as p:
             try:
                 kw = fresh(case["kwargs"])
-                par = ("ok", canon_droplets(ia.refine_droplets(field, candidates_of(case, field),
-                                                               num_processes=case["num_processes"], **kw)))
+                res, out["candidates_parallel"] = refine_call(ia, field, case, case["num_processes"], kw)
+                par = ("ok", res)
                 out["mutation_parallel"] = mutation_of(case["kwargs"], kw, tol)
             except Exception as e:  # noqa
                 par = ("err", type(e).__name__)
@@ -352,6 +378,20 @@ def judge_refine_case(case, obs):
     if m:
         fails.append(m)
     fails += judge_options(case["kwargs"], obs, "refine_droplets")
+    # the caller's candidate objects after the call must not depend on the number of processes (F32: fitted in
+    # place serially, untouched by the pool), and a result must not be one of the caller's objects in one branch only
+    cs, cp = obs.get("candidates_serial"), obs.get("candidates_parallel")
+    if cs is not None and cp is not None:
+        if cs["after"] != cp["after"] or cs["length"] != cp["length"]:
+            i = next((i for i, (a, b) in enumerate(zip(cs["after"], cp["after"])) if a != b), 0)
+            fails.append(f"the caller's candidates ({case.get('container', 'list')} of {case['candidate_kind']}) after the call "
+                         f"depend on the number of processes: candidate {i} was {floats(cs['before'][i]) if cs['before'] else None}, is "
+                         f"{floats(cs['after'][i]) if cs['after'] else None} after num_processes=1 and "
+                         f"{floats(cp['after'][i]) if cp['after'] else None} after num_processes={case['num_processes']}; a later "
+                         "analysis that reuses the candidates depends on how this one was scheduled")
+        elif cs["aliased"] != cp["aliased"]:
+            fails.append(f"results of num_processes=1 are the caller's candidate objects themselves "
+                         f"(aliased: {cs['aliased']}), results of num_processes={case['num_processes']} are new objects")
     return fails
 
 
@@ -570,11 +610,81 @@ def judge_tracklist_case(case, obs):
     return []
 
 
+# ---- edge cases: 0, 1, 2 tasks for every process count in all three entry points ---------------
+EDGE_FULL = {"shape": [16, 16], "periodic": True, "noise": 0.0, "seed": 3,
+             "droplets": [[[3.0, 3.0], 1.5, 0.75], [[8.25, 8.0], 1.75, 0.5], [[13.0, 3.0], 1.25, 0.75]]}
+EDGE_EMPTY = {"shape": [16, 16], "periodic": True, "noise": 0.0, "seed": 3, "droplets": []}
+EDGE_SINGLE = {"shape": [16, 16], "periodic": False, "noise": 0.0, "seed": 3, "droplets": [[[8.0, 8.0], 2.0, 0.75]]}
+
+
+def edge_cases():
+    cases = []
+    for np_ in (2, 3, "auto"):
+        for take, kind, cont in ((0, "located", "list"), (1, "diffuse", "emulsion"), (2, "perturbed2d", "list")):
+            cases.append({"call": "edge", "entry": "refine_droplets", "what": f"{take} candidates", "field": EDGE_FULL,
+                          "take": take, "candidate_kind": kind, "container": cont, "kwargs": {},
+                          "num_processes": np_, "delays": "none"})
+        for what, spec, opts in (("frame without droplets", EDGE_EMPTY, {}),
+                                 ("minimal_radius removes every candidate", EDGE_FULL, {"minimal_radius": 50.0}),
+                                 ("frame with one droplet", EDGE_SINGLE, {"modes": 1})):
+            cases.append({"call": "edge", "entry": "locate_droplets", "what": what, "field": spec, "options": opts,
+                          "num_processes": np_, "delays": "none"})
+        for nframes in (0, 1):
+            cases.append({"call": "edge", "entry": "from_storage", "what": f"storage with {nframes} frame(s)",
+                          "frames": [EDGE_FULL] * nframes, "times": [0.5] * nframes,
+                          "options": {"refine": True, "minimal_radius": 0.5}, "progress": [None, True][nframes],
+                          "num_processes": np_, "delays": "none"})
+    return cases
+
+
+def run_edge_case(case):
+    """The same call with num_processes=1 and with the case's process count: ('ok', result) | ('err', exception)."""
+    from pde import MemoryStorage
+    import droplets.image_analysis as ia
+    from droplets.emulsions import EmulsionTimeCourse
+
+    def call(np_):
+        try:
+            if case["entry"] == "refine_droplets":
+                field = make_field(case["field"])
+                res = ia.refine_droplets(field, container_of(case, candidates_of(case, field)), num_processes=np_,
+                                         **fresh(case["kwargs"]))
+                return ("ok", canon_droplets(res)), len(candidates_of(case, field))
+            if case["entry"] == "locate_droplets":
+                field = make_field(case["field"])
+                res = ia.locate_droplets(field, refine=True, num_processes=np_, **fresh(case["options"]))
+                return ("ok", canon_droplets(res)), len(res)
+            fields = [make_field(f) for f in case["frames"]]
+            storage = MemoryStorage.from_fields(case["times"], fields) if fields else MemoryStorage(times=[], data=[])
+            tc = EmulsionTimeCourse.from_storage(storage, num_processes=np_, progress=case["progress"],
+                                                 **fresh(case["options"]))
+            return ("ok", canon_tc(tc)), len(fields)
+        except Exception as e:  # noqa
+            return ("err", type(e).__name__), 0
+
+    with warnings.catch_warnings():
+        warnings.simplefilter("ignore")
+        (ser, n), (par, _) = call(1), call(case["num_processes"])
+    return {"n": n, "sigma": [], "serial": ser, "parallel": par, "completed": None}
+
+
+def judge_edge_case(case, obs):
+    if obs["serial"] != obs["parallel"]:
+        d = lambda r: r[1] if r[0] == "err" else ("returns " + (str(len(r[1])) + " droplets" if isinstance(r[1], list)  # noqa
+                                                               else str(len(r[1]["times"])) + " frames"))
+        return [f"{case['entry']} ({case['what']}): num_processes=1 {'raises ' if obs['serial'][0] == 'err' else ''}"
+                f"{d(obs['serial'])}, num_processes={case['num_processes']} "
+                f"{'raises ' if obs['parallel'][0] == 'err' else ''}{d(obs['parallel'])}"]
+    return []
+
+
 # ---------------------------------------------------------------------------------------
 # known findings (known_findings.json, kind = "finding", property = "C15")
 # ---------------------------------------------------------------------------------------
 def unset_width_crosses_pool(case) -> bool:
     """A DiffuseDroplet (or subclass) whose interface width is unset is pickled to a worker."""
+    if case["call"] == "edge":
+        return False
     if case["call"] == "refine_droplets":
         return case["candidate_kind"] == "diffuse_unset"
     if case["call"] == "locate_droplets":
@@ -648,13 +758,15 @@ Definition is_none (o : option nat) : bool := match o with None => true | Some _
 (* (filtering branch?, progress truthy?, per-task results of direct calls (None = the task returned None), num_processes, cpus,
     schedule, serial result, result with num_processes) -- tasks are identified with their index *)
 Definition case_t : Type :=
-  bool * bool * list (option nat) * nproc * nat * list nat * list (option nat) * list (option nat) * (nat * nat).
+  bool * bool * list (option nat) * nproc * nat * list nat * list (option nat) * list (option nat) * (nat * nat)
+  * (list nat * list nat).
 
 Definition worker (table : list (option nat)) (i : nat) : option nat :=
   match nth_error table i with Some r => r | None => Some 999999 end.
 
 Definition agree (c : case_t) : bool :=
-  let '(filtering, progress, table, np, ncpu, sigma, serial, parallel, (opt_serial, opt_parallel)) := c in
+  let '(filtering, progress, table, np, ncpu, sigma, serial, parallel, (opt_serial, opt_parallel),
+        (cand_serial, cand_parallel)) := c in
   let P := if filtering then P_refine else P_storage progress in
   let tasks := seq 0 (length table) in
   (* the caller's options are state 0 before the call; a task that writes into the object it is handed leaves it in
@@ -671,17 +783,28 @@ Definition agree (c : case_t) : bool :=
              list_eqb opt_eqb s' serial && list_eqb opt_eqb p' parallel && Nat.eqb os opt_serial && Nat.eqb op opt_parallel
          | _, _ => false
          end
+         (* the caller's candidate i is in state i before the call; cand_serial / cand_parallel: the states observed
+            afterwards (i = unchanged); a task that writes into the object it is handed leaves it in a state the
+            harness does not predict *)
+         && match mapped_with_arguments is_none P refine_copies_candidate (fun i => (worker table i, 999999))
+                                        (NPInt 1) ncpu sigma tasks,
+                  mapped_with_arguments is_none P refine_copies_candidate (fun i => (worker table i, 999999))
+                                        np ncpu sigma tasks with
+            | Done (_, cs), Done (_, cp) => list_eqb Nat.eqb cs cand_serial && list_eqb Nat.eqb cp cand_parallel
+            | _, _ => false
+            end
        else true)
   | _, _ => false
   end.
 """
 
 
-def case_literal(filtering: bool, table, np_, sigma, serial, parallel, progress=False, options=(0, 0)) -> str:
+def case_literal(filtering: bool, table, np_, sigma, serial, parallel, progress=False, options=(0, 0),
+                 cands=((), ())) -> str:
     o = lambda x: "None" if x is None else f"(Some {x})"  # noqa
     return (f"(({vlib.blit(filtering)}, {vlib.blit(bool(progress))}, {vlib.listlit(table, o)}, {np_literal(np_)}, {ncpu()}, "
             f"{vlib.listlit(sigma)}, {vlib.listlit(serial, o)}, {vlib.listlit(parallel, o)}, "
-            f"({options[0]}, {options[1]})) : case_t)")
+            f"({options[0]}, {options[1]}), ({vlib.listlit(cands[0])}, {vlib.listlit(cands[1])})) : case_t)")
 
 
 # ---------------------------------------------------------------------------------------
@@ -757,6 +880,11 @@ def _check(ctx: vlib.Ctx) -> int:
         else:
             obs = run_locate_case(case, log)
             record("locate_droplets", case, obs, judge_locate_case(case, obs))
+    # ---- 0, 1, 2 tasks for every process count, all entry points
+    for case in edge_cases():
+        obs = run_edge_case(case)
+        record("edge:" + case["entry"], case, obs, judge_edge_case(case, obs))
+        ctx.count("edge_tasks x num_processes", f"{case['what']} x {case['num_processes']}")
     # ---- refine_droplets
     for k in range(ctx.scale(42, 160)):
         case = gen_refine_case(rng, k)
@@ -764,6 +892,11 @@ def _check(ctx: vlib.Ctx) -> int:
         fails = judge_refine_case(case, obs)
         record("refine_droplets", case, obs, fails)
         ctx.count("candidate_kind", case["candidate_kind"])
+        ctx.count("candidate_container", case.get("container", "list"))
+        if "candidates_serial" in obs:
+            ctx.count("caller_candidates_after_call(serial)", "changed" if any(obs["candidates_serial"]["changed"]) else "unchanged")
+        if "candidates_parallel" in obs:
+            ctx.count("caller_candidates_after_call(parallel)", "changed" if any(obs["candidates_parallel"]["changed"]) else "unchanged")
         ctx.count("dropped_by_worker", len(case["drop"]))
         if k < 2:
             ctx.sample({"case": case, "tasks": obs["n"], "completion_order_observed": obs["completed"],
@@ -773,7 +906,9 @@ def _check(ctx: vlib.Ctx) -> int:
             oid = lambda m: 0 if m is None else 1 + ids(("options", m[1]))  # noqa: 0 = as the caller wrote them
             literals.append(case_literal(True, table, case["num_processes"], obs["sigma"],
                                          [ids(d) for d in obs["serial"]], [ids(d) for d in obs["parallel"][1]],
-                                         options=(oid(obs.get("mutation_serial")), oid(obs.get("mutation_parallel")))))
+                                         options=(oid(obs.get("mutation_serial")), oid(obs.get("mutation_parallel"))),
+                                         cands=tuple([i if not ch else 1000000 + i for i, ch in enumerate(obs[k]["changed"])]
+                                                     for k in ("candidates_serial", "candidates_parallel"))))
             lit_cases.append(case)
     # ---- locate_droplets(refine=True, num_processes=...)
     for k in range(ctx.scale(12, 48)):
@@ -865,7 +1000,12 @@ def replay(path: str) -> int:
         print("no concrete input stored (no-failing-input-found)")
         return 0
     print("input:", json.dumps(case))
-    if case["call"] == "refine_droplets":
+    if case["call"] == "edge":
+        obs = run_edge_case(case)
+        fails = judge_edge_case(case, obs)
+        print("num_processes=1:", obs["serial"][0], obs["serial"][1] if obs["serial"][0] == "err" else "")
+        print(f"num_processes={case['num_processes']}:", obs["parallel"][0], obs["parallel"][1] if obs["parallel"][0] == "err" else "")
+    elif case["call"] == "refine_droplets":
         obs = run_refine_case(case, unit=0.2)
         fails = judge_refine_case(case, obs)
         print("serial  :", [floats(x) for x in obs["serial"]])
